@@ -312,6 +312,6 @@ def run (lines : Array String) : Driver.Report := Id.run do
                 s!"state file records sequencer height {fst.last} as submitted, confirmed on the fake chain: {conf}"
         st := { st with w := w', tampered := tampered, saved := saved, foreign := foreign }
     | _ => r := r.addDisagree n line "bad-area"
-  return { r with monitorFail := m.monitorFail, out := m.out ++ r.out }
+  return { r with monitorFail := m.monitorFail, mon := m.mon }
 
 end Driver.CrashArea
